@@ -1177,3 +1177,7 @@ def run(ctx, out):
         "samples": [r["sc"].lines()[5:9] for r in results[:3]] + [results[-1]["sc"].lines()[5:8]],
         "tie_wall_s": round(time.time() - t0, 1),
     })
+    # cJSON_ReplaceItemInObject, the call change_password replaces the password member with: the real cJSON.c against
+    # Cjet.Cjson.TreeOps, every key-copy failure included (finding F69, repaired)
+    from vlib import cjsontree_tie
+    cjsontree_tie.run_cjsontree_tie(ctx, out)
